@@ -18,7 +18,7 @@ def run(ctx):
     import opticomlib.utils as ut
     rnd = random.Random(ctx.seed)
     r = ctx.tlc("TextModel", "SPECIFICATION Spec\nINVARIANT Dec2BinCorrect\nINVARIANT RenderLegal\nINVARIANT BitRuleIsTextual\nINVARIANT Emit\nCHECK_DEADLOCK FALSE\n"
-                f"CONSTANTS MaxD = {16 if T else 12}\n MaxRows = 2\n MaxCols = {3 if T else 2}\n", workers=1,
+                f"CONSTANTS MaxD = {16 if T else 12}\n MaxRows = 2\n MaxCols = {3 if T else 2}\n Alpha <- {'AlphabetSmall' if T else 'AlphabetFull'}\n", workers=1,
                 note="dec2bin for every (v,d); every small array x style x dtype", timeout=6000)
     ctx.exhaustive = True
 
